@@ -99,3 +99,34 @@ Fixpoint schedule_ok (cs : nat) (reads : list (list N)) : Prop :=
   | [] => True
   | r :: rs => (List.length r < cs -> concat rs = []) /\ schedule_ok cs rs
   end.
+
+(* ---------------- piped stdin (IoFormat::RawStdin): the inner accumulation loop ---------------- *)
+(* `frags` = the results of the successive read() calls on the pipe: arbitrary non-empty fragments, an empty
+   one at the end of the input. One iteration of parse_nalus takes one fragment into main_buf, then keeps
+   reading into sec_buf until the iteration has at least chunk_size bytes or a read returns nothing *)
+Fixpoint stdin_inner (cs : nat) (acc : list N) (frags : list (list N)) : list N * list (list N) :=
+  match frags with
+  | [] => (acc, [])                                   (* read returns 0: end of input *)
+  | f :: t =>
+      if Nat.eqb (List.length f) 0 then (acc, t)
+      else let acc' := acc ++ f in
+           if Nat.leb cs (List.length acc') then (acc', t) else stdin_inner cs acc' t
+  end.
+
+Fixpoint stdin_pieces (fuel cs : nat) (frags : list (list N)) : list (list N) :=
+  match fuel with
+  | O => []
+  | S fu =>
+      match frags with
+      | [] => []
+      | f :: t => let '(piece, rest) := stdin_inner cs f t in piece :: stdin_pieces fu cs rest
+      end
+  end.
+Definition read_stdin (cs : nat) (frags : list (list N)) : list (list N) := stdin_pieces (List.length frags) cs frags.
+
+(* the end of the input is final: once a read has returned nothing, every later read returns nothing *)
+Fixpoint eof_sticky (frags : list (list N)) : Prop :=
+  match frags with
+  | [] => True
+  | f :: t => (f = [] -> concat t = []) /\ eof_sticky t
+  end.
